@@ -506,4 +506,31 @@ def run (s : Sys) (as : List Act) : Option Sys := runG finReturns s as
 /-- reachable = result of some action list from `init` -/
 def Reachable (s : Sys) : Prop := ∃ as, run init as = some s
 
+
+/-! ## `clientdb/sidecar.go`: `UpdateSidecar` and the bid template
+
+The transition system above assumes that updating a ticket the store knows succeeds (`updateOk t = (t.id == 0)`).
+This is the store-level model that justifies it (theorem `C16_update_of_known_ticket_succeeds`). -/
+
+structure TicketDB where
+  known : Bool      -- a ticket with this (ID, SignPubKey) key is stored
+  bucket : Bool     -- the "sidecar-bids" sub-bucket exists (a ticket was added with a bid template)
+  template : Bool   -- the template of this ticket's nonce is still there
+deriving DecidableEq, Repr
+
+/-- `removeBidTemplate`: no bucket → nil; zero nonce → nil; `DeleteBucket`, where `ErrBucketNotFound` is ignored. -/
+def removeBidTemplate (db : TicketDB) (nonceZero : Bool) : TicketDB × Bool :=
+  if !db.bucket then (db, true) else
+  if nonceZero then (db, true) else
+  if db.template then ({ db with template := false }, true) else (db, true)
+
+/-- `DB.UpdateSidecar`: `ErrNoSidecar` for an unknown key; a terminal state with an order part removes the template -/
+def updateSidecarDB (db : TicketDB) (state : Nat) (hasOrder nonceZero : Bool) : TicketDB × Bool :=
+  if !db.known then (db, false) else
+  if isTerminal state && hasOrder then
+    match removeBidTemplate db nonceZero with
+    | (db', true) => (db', true)
+    | (db', false) => (db', false)
+  else (db, true)
+
 end Pool.C16
